@@ -842,11 +842,16 @@ func (p *Printer) paramExp(pe *ParamExp) {
 			p.w.WriteByte('/')
 		}
 		p.w.WriteByte('/')
+		// The words inside a parameter expansion must not begin with an
+		// escaped newline of our own, whose space and indentation would
+		// become part of their value; stay on the current line.
 		if pe.Repl.Orig != nil {
+			p.advanceLine(pe.Repl.Orig.Pos().Line())
 			p.word(pe.Repl.Orig)
 		}
 		p.w.WriteByte('/')
 		if pe.Repl.With != nil {
+			p.advanceLine(pe.Repl.With.Pos().Line())
 			p.word(pe.Repl.With)
 		}
 	case pe.Names != 0:
@@ -854,6 +859,7 @@ func (p *Printer) paramExp(pe *ParamExp) {
 	case pe.Exp != nil:
 		p.w.WriteString(pe.Exp.Op.String())
 		if pe.Exp.Word != nil {
+			p.advanceLine(pe.Exp.Word.Pos().Line())
 			p.word(pe.Exp.Word)
 		}
 	}
